@@ -1033,6 +1033,8 @@ class Container:
 
         if not isinstance(unit, str):
             raise TypeError("Unit must be a str.")
+        if unit[-1:] != 'L':
+            raise ValueError("Unit must be a unit of volume, ('mL').")
 
         return Unit.convert_from_storage(self.volume, unit)
 
